@@ -204,10 +204,11 @@ def prepare_nodes(run, thorough, base):
     gen = dict(base, MaxChildren="3" if thorough else "2", ExtraContents="{}" if thorough else EXTRA3)
     inits, edges = run.tlc_edges("NodeGen", "Node_gen.cfg", gen, timeout=1500)
     walks, st = edge_cover(inits, edges, maxlen=24, rng=run.rng, extra_walks=300 if thorough else 40)
-    # ... plus EVERY sequence of <= 4 state-file calls (and listings) on the empty root, and every sequence of <= 3 calls
+    # ... plus EVERY sequence of <= 4 (thorough 5) state-file calls on the empty root (lookup / getattr of the stat file, blob progress,
+    # error report, read through the inode held - with no implicit re-stat), and every sequence of <= 3 calls
     # out of Readdir / Lookup / Forget of the served names on two small directories (call orders, not just edges)
     seqs = all_sequences(inits, edges, lambda i: i["isRoot"] and not i["src"],
-                         lambda l: l["act"] in ("Progress", "Report", "StatRead", "Readdir"), 4)
+                         lambda l: l["act"] in ("StatLookup", "StatGetattr", "Progress", "Report", "StatRead"), 5 if thorough else 4)
     for content in (["a", ".wh.a"], [".wh.a", ".wh..wh.foo"]):
         seqs += all_sequences(inits, edges, lambda i: not i["isRoot"] and sorted(i["src"]) == sorted(content),
                               lambda l: l["act"] in ("Readdir", "Forget") or (l["act"] == "Lookup" and l["n"] in ("a", ".wh.foo", "zz")), 3)
